@@ -496,10 +496,10 @@ class FromPandas(PartitionsFiltered, BlockwiseIO):
     def _get_lengths(self) -> tuple | None:
         if self._pd_length_stats is None:
             locations = self._locations()
+            # one entry per output partition: a selection may reorder
+            # partitions or take one more than once
             self._pd_length_stats = tuple(
-                offset - locations[i]
-                for i, offset in enumerate(locations[1:])
-                if not self._filtered or i in self._partitions
+                locations[i + 1] - locations[i] for i in self._partitions
             )
         return self._pd_length_stats
 
